@@ -45,10 +45,19 @@ class UserDeleteEdge(ActionGroup):
                 UpdateTrackIDs(self.tracks, edge[1], new_track_id, new_lineage_id)
             )
         elif out_degree == 1:  # removed a division edge
-            # sibling gets parent's track id (lineage stays the same)
+            # sibling gets parent's track id (and stays in the parent's lineage)
             sibling = next(iter(self.tracks.graph.successors(edge[0])))
             new_track_id = self.tracks.get_track_id(edge[0])
             self.actions.append(UpdateTrackIDs(self.tracks, sibling, new_track_id))
+            # the detached subtree becomes a lineage of its own (its track ids stay)
+            self.actions.append(
+                UpdateTrackIDs(
+                    self.tracks,
+                    edge[1],
+                    self.tracks.get_track_id(edge[1]),
+                    self.tracks.get_next_lineage_id(),
+                )
+            )
         else:
             raise InvalidActionError(
                 f"Expected degree of 0 or 1 after removing edge, got {out_degree}"
